@@ -135,7 +135,7 @@ package cty
 //@   let R ($at<cty.refinementNumber> r)
 //@   let mn (cty.refinementNumber.min R)
 //@   let mx (cty.refinementNumber.max R)
-//@   panics[C05] (and (not (= mn nilval)) (not (= mx nilval)) (ite (= (cty.refinementNumber.minInc R) (cty.refinementNumber.maxInc R)) (not (or (bf_lt (bf_of mn) (bf_of mx)) (num_eq mn mx))) (not (bf_lt (bf_of mn) (bf_of mx)))))
+//@   panics[C05] (and (not (= mn nilval)) (not (= mx nilval)) (ite (and (cty.refinementNumber.minInc R) (cty.refinementNumber.maxInc R)) (not (or (bf_lt (bf_of mn) (bf_of mx)) (num_eq mn mx))) (not (bf_lt (bf_of mn) (bf_of mx)))))
 //
 //@ func (*cty.RefinementBuilder).NumberRangeLowerBound
 //@   tags C05 C20
